@@ -128,7 +128,7 @@ func TestSendAllSmallLengths(t *testing.T) {
 // every payload length the 17-bit field can express (thorough tier; a stride in quick)
 func TestSendAllLengths(t *testing.T) {
 	s := vf.Begin(t, P, "send-frame-all-lengths")
-	step := vf.N(257, 1)
+	step := vf.Size(257, 1)
 	if step == 1 {
 		s.SetExhaustive()
 	}
